@@ -1,3 +1,4 @@
 import Ufo2ftModel.Basic
 import Ufo2ftModel.Drv.All
 import Ufo2ftModel.Props.C03
+import Ufo2ftModel.Props.C04
